@@ -180,7 +180,7 @@ def run(ctx):
         "disjoint first-character sets; rooms orthogonally connected and in bounds; item-level terms that "
         "decode to several items (MultiDigit) are wrapped in Seq at the top level",
     ]
-    k, n = (8, 1500) if ctx.quick() else (16, 15000)
+    k, n = (16, 1500) if ctx.quick() else (16, 15000)
     for r in pmap(shard, [(ctx.seed * 1000 + i, n) for i in range(k)]):
         ctx.stats.merge(r)
     cl = ctx.stats.classes
